@@ -60,6 +60,11 @@ def run(ctx) -> None:
     RT = ctx.rule("C01/tree-changing-complete", "every tree-changing native kind (x IN_ISDIR, both emitter modes) emits a created/deleted/moved event of the entry's flavour naming the entry itself (paired move: source then destination), before any synthetic descendant event; new directories get one simulated create per walked directory and file", floor=20)
     RO = ctx.rule("C01/order-preserving-pipeline", "no stage between kernel and handler reorders or drops: lists are only appended to / extended / replaced in place, loops iterate in order, the delay queue is append/popleft, the event queue's base is the FIFO queue.Queue and its primitives delegate, one consumer loop per queue, walks are top-down", floor=9)
 
+    RW = ctx.rule("C01/every-directory-is-watched", "a change can only reach the stream if its directory has a kernel watch under its current name: the reader's bookkeeping contract (instances shared with C02) — install on create / arrival, re-key on rename, prune only the dying descriptor's entry, initial recursive installation", floor=10)
+    from .c02 import check_rows
+
+    check_rows(ctx, RW, RW, RW, RW, RW, RW)
+
     rows, npaths, fi = inotify_emitter_table(P)
     ctx.count("emitter_paths", npaths)
     covered = set()
@@ -108,14 +113,21 @@ def run(ctx) -> None:
 
     # simulated creates for the contents of a new directory
     bp, L, rfi, _ = record_paths(P, fault=False)
+    from ..model import nested_function, returned_name
+
+    RL = returned_name(rfi.node)  # the list read_events returns
+    simf = nested_function(rfi.node, lambda f: any(isinstance(n, ast.Call) and dotted(n.func) == "os.walk" for n in ast.walk(f)))
+    SL = returned_name(simf) if simf is not None else None  # the list of simulated records
+    if RL is None or SL is None:
+        raise AnalysisError("read_events: returned list / simulated-events list not identified")
     found_sim = False
     for p in bp:
         if flag_kind(p) != "is_create" or p.conds().get("rec.is_directory") is not True or p.conds().get("self.is_recursive") is not True:
             continue
         evs = p.evs
         own = lambda e: "InotifyEvent(" in (e.extra.get("args") or [""])[0]  # noqa: E731
-        idx_app = [i for i, e in enumerate(evs) if e.kind == "call" and e.extra.get("func") in ("event_list.append", "event_list.extend") and own(e)]
-        idx_ext = [i for i, e in enumerate(evs) if e.kind == "call" and e.extra.get("func") == "event_list.extend" and not own(e)]
+        idx_app = [i for i, e in enumerate(evs) if e.kind == "call" and e.extra.get("func") in (f"{RL}.append", f"{RL}.extend") and own(e)]
+        idx_ext = [i for i, e in enumerate(evs) if e.kind == "call" and e.extra.get("func") == f"{RL}.extend" and not own(e)]
         walks = [e for e in evs if e.kind == "loop" and e.text.startswith("os.walk(")]
         if not walks:
             continue
@@ -137,7 +149,7 @@ def run(ctx) -> None:
                 bodies = [bb for bb in x.extra["paths"] if bb.outcome[0] not in ("raise",)]
                 good = bool(bodies)
                 for bb in bodies:
-                    apps = [y for y in bb.evs if y.kind == "call" and y.extra.get("func") == "events.append"]
+                    apps = [y for y in bb.evs if y.kind == "call" and y.extra.get("func") == f"{SL}.append"]
                     absorbed = any(y.kind == "caught" for y in bb.evs) or bb.outcome == ("continue",)
                     if len(apps) != 1 and not absorbed:
                         good = False
@@ -155,13 +167,16 @@ def run(ctx) -> None:
     def stage(name, ok, msg, loc, detail=None):
         ctx.check(ok, RO, name, msg, loc, detail)
 
-    ops = list_ops(rfi.node, "event_list")
-    stage("reader: event_list", set(ops) <= {"append", "extend"} and bool(ops), f"operations on event_list: {ops}", rfi.loc, ops)
-    ops = list_ops(rfi.node, "events")
+    ops = list_ops(rfi.node, RL)
+    stage("reader: returned event list", set(ops) <= {"append", "extend"} and bool(ops), f"operations on {RL}: {ops}", rfi.loc, ops)
+    ops = list_ops(rfi.node, SL)
     stage("reader: simulated events list", set(ops) <= {"append", "extend"}, f"operations on the simulated list: {ops}", rfi.loc, ops)
     gf = P.find_method("InotifyBuffer", "_group_events")
-    ops = list_ops(gf.node, "grouped")
-    stage("buffer: grouped list", set(ops) <= {"append", "extend", "[i]="} and ops.get("append", 0) >= 1, f"operations on grouped: {ops}", gf.loc, ops)
+    GL = returned_name(gf.node)
+    if GL is None:
+        raise AnalysisError("_group_events: returned list not identified")
+    ops = list_ops(gf.node, GL)
+    stage("buffer: grouped list", set(ops) <= {"append", "extend", "[i]="} and ops.get("append", 0) >= 1, f"operations on {GL}: {ops}", gf.loc, ops)
     rf = P.find_method("InotifyBuffer", "run")
     fors = [n for n in ast.walk(rf.node) if isinstance(n, ast.For)]
     stage("buffer: hand-over loop in order", bool(fors) and not any(isinstance(f.iter, ast.Call) and dotted(f.iter.func) in ("reversed", "sorted") for f in fors), "hand-over loop iterates a reordered view", rf.loc)
